@@ -10,7 +10,7 @@
      restores T c o      LookupUnits recognises the long name pint reports for unit o and returns the text c *)
 From Coq Require Import QArith List ZArith Bool String Ascii.
 From Verif Require Import Base.Flat Model.UnitAlg Proofs.UnitAlgProofs Model.UnitReader Proofs.UnitReaderProofs
-     Gen.UnitCatalogue Proofs.UnitCatalogueProofs.
+     Gen.UnitCatalogue Gen.UnitReference Proofs.UnitCatalogueProofs.
 Import ListNotations.
 Open Scope string_scope.
 Open Scope Q_scope.
@@ -99,6 +99,12 @@ Print Assumptions C06_catalogue.
 Theorem C06_registry_table_wellformed : table_wf gen_tables.
 Proof. exact gen_tables_wf. Qed.
 Print Assumptions C06_registry_table_wellformed.
+
+(* the regenerated registry table agrees (to 1e-9) with the FROZEN independent reference of what the catalogue units
+   mean (spec/c06_unit_reference.json: international foot/inch/pound, Btu, and the units GEOPHIRES3_newunits.txt defines) *)
+Theorem C06_reference_units_agree : forall e, In e ref_units -> ref_entry_ok (1 # 1000000000) gen_tables e = true.
+Proof. exact gen_reference_agrees. Qed.
+Print Assumptions C06_reference_units_agree.
 
 (* ---- the echo ---- *)
 
@@ -233,3 +239,8 @@ Example C06_depth_heuristic_nonvacuous :
   exists km m, t_parse gen_tables "kilometer" = Some km /\ t_parse gen_tables "meter" = Some m /\
                pu_fac km == 1000 * pu_fac m /\ pu_off km == pu_off m.
 Proof. eexists. eexists. split; [vm_compute; reflexivity|]. split; [vm_compute; reflexivity|]. split; vm_compute; reflexivity. Qed.
+
+Example C06_reference_nonvacuous :
+  existsb (fun e => String.eqb (fst (fst (fst e))) "USD/MMBTU") ref_units = true /\
+  existsb (fun e => String.eqb (fst (fst (fst e))) "cents/kWh") ref_units = true /\ Nat.leb 80 (List.length ref_units) = true.
+Proof. repeat split; vm_compute; reflexivity. Qed.
